@@ -261,6 +261,15 @@ class Ctx:
     def call_arg(self, call: ast.Call, f: FuncInfo, param: str) -> Optional[ast.expr]:
         """The argument expression bound to `param` of callee f (None if defaulted / not determinable).
         `**name` is expanded when name is a never-mutated local dict display with constant keys."""
+        syns = self.an.syn_by_call.get(id(call))
+        if syns and any(isinstance(x, ast.Starred) for x in call.args) or syns and any(k.arg is None for k in call.keywords) or syns and not isinstance(call.func, ast.Attribute):
+            # a call made through a callable value (`spawner(*args, **kwargs)` inside a helper, `factory()` of a partial): read off the
+            # stand-in call that spells out callee and arguments; each argument remembers the frame it was written in
+            got = [self.call_arg(s_, f, param) for s_ in syns if s_ is not call]
+            if got and all(g_ is not None for g_ in got) and len({ast.dump(g_) for g_ in got}) == 1:
+                return got[0]
+            if got:
+                return None
         names = f.param_names()
         a = f.node.args
         pos = [p.arg for p in a.posonlyargs + a.args]
@@ -315,15 +324,30 @@ class Ctx:
         aenter, aexit = reg.methods.get("__aenter__"), reg.methods.get("__aexit__")
         if aenter is None or aexit is None:
             return False, "TaskGroupRegister has no __aenter__/__aexit__"
-        for f, want in ((aenter, "acquire"), (aexit, "release")):
+        def lock_only(f: FuncInfo, want: str, depth: int = 0) -> Optional[str]:
+            """None when f consists of exactly one lock `want` - itself, or by delegating to another method of the register that does"""
             effs = [e for e in self.eff.of_func(f) if e.container == "Lock"]
-            if [e.kind for e in effs] != [want]:
-                return False, f"{f.qual} does not consist of exactly one lock {want}"
+            dele = [n for n in self.nodes(f, lambda n: n.op in ("call", "await") and n.inlined is None and n.func is f and id(n.ast) not in self.an.spliced_at) if (n.callee if n.op == "call" else n.awaited) is not None
+                    and (n.callee if n.op == "call" else n.awaited).kind == "pkg" and any(t.cls is reg for t in (n.callee if n.op == "call" else n.awaited).targets)]
+            dele = [n for n in dele if n.op == "await" or not any(m.op == "await" and m.awaited is n.callee for m in dele)]
+            targets = {t.qual: t for n in dele for t in (n.callee if n.op == "call" else n.awaited).targets}
+            if not effs and len(targets) == 1 and depth < 3 and len({id(n.ast) for n in dele if n.op == ("await" if want == "acquire" else "call")}) == 1:
+                sub = lock_only(next(iter(targets.values())), want, depth + 1)
+                if sub is not None:
+                    return sub
+            elif [e.kind for e in effs] != [want] or targets:
+                return f"{f.qual} does not consist of exactly one lock {want}"
             susp = [n for n in self.nodes(f, lambda n: n.suspends)]
             if want == "release" and susp:
-                return False, f"{f.qual} suspends"
-            if want == "acquire" and any(not self.is_ext_await(n, "Lock.acquire") for n in susp):
-                return False, f"{f.qual} awaits something other than the lock"
+                return f"{f.qual} suspends"
+            if want == "acquire" and any(not self.is_ext_await(n, "Lock.acquire") and n not in dele for n in susp):
+                return f"{f.qual} awaits something other than the lock"
+            return None
+
+        for f, want in ((aenter, "acquire"), (aexit, "release")):
+            why = lock_only(f, want)
+            if why is not None:
+                return False, why
         # (2) nobody takes the lock except through async-with (explicit acquire/release wrappers have no caller)
         for f in self.prog.all_functions():
             if f.cls is reg:
@@ -502,3 +526,143 @@ def dominated_by_completion(g: CFG, a: Iterable[Node], b: Node, ef=None) -> bool
 
 def path_text(nodes: Iterable[Node]) -> List[str]:
     return [f"{n.where()} {n.op} {n.text(70)}" for n in nodes]
+
+
+def _lookup_of(step: Node):
+    """(container expression, key expression) of a keyed look-up step: D[k], del D[k], D.pop(k)"""
+    a = step.ast
+    if step.op == "del" and isinstance(a, ast.Delete) and len(a.targets) == 1 and isinstance(a.targets[0], ast.Subscript):
+        return a.targets[0].value, a.targets[0].slice
+    if isinstance(a, ast.Subscript):
+        return a.value, a.slice
+    if isinstance(a, ast.Call) and isinstance(a.func, ast.Attribute) and a.func.attr == "pop" and len(a.args) == 1 and not a.keywords:
+        return a.func.value, a.args[0]
+    return None
+
+
+def key_presence_tests(ctx: "Ctx", f: FuncInfo, cpath: str, key_id) -> Dict[Node, str]:
+    """test steps of f that establish `key in <container at cpath>` -> the label ('T'/'F') of the edge on which the key is present:
+    `k in D` / `k not in D` / `D.get(k) is None` / `is not None` (also through a local or a spliced helper returning the get)."""
+    V, E = ctx.vals, ctx.eff
+
+    def same_key(fr, env, e) -> bool:
+        kf, _ke, kl = V.trace(fr, env, e)
+        return (kf.qual, ast.dump(kl)) == key_id
+
+    def cont(fr, env, e) -> Optional[str]:
+        if isinstance(e, ast.Call) and isinstance(e.func, ast.Attribute) and e.func.attr == "keys" and not e.args:
+            e = e.func.value
+        p_ = E.paths(fr).of(e)
+        return E.rebase(p_, fr, env) if p_ else None
+
+    out: Dict[Node, str] = {}
+    for t in ctx.nodes(f, lambda n: n.op == "test"):
+        e, flip = t.ast, False
+        while isinstance(e, ast.UnaryOp) and isinstance(e.op, ast.Not):
+            e, flip = e.operand, not flip
+        if not (isinstance(e, ast.Compare) and len(e.ops) == 1):
+            continue
+        op, left, right = e.ops[0], e.left, e.comparators[0]
+        present = None
+        if isinstance(op, (ast.In, ast.NotIn)) and cont(t.func, t.env, right) == cpath and same_key(t.func, t.env, left):
+            present = isinstance(op, ast.In)
+        elif isinstance(op, (ast.Is, ast.IsNot)) and isinstance(right, ast.Constant) and right.value is None:
+            if isinstance(left, ast.NamedExpr):
+                left = left.value
+            ls = V.leaves_at(t, left)
+            if ls and all(isinstance(v, ast.Call) and isinstance(v.func, ast.Attribute) and v.func.attr == "get" and 1 <= len(v.args) <= 2
+                          and (len(v.args) == 1 or (isinstance(v.args[1], ast.Constant) and v.args[1].value is None)) and not v.keywords
+                          and cont(fr_, env_, v.func.value) == cpath and same_key(fr_, env_, v.args[0]) for fr_, env_, v in ls):
+                present = isinstance(op, ast.IsNot)
+        if present is not None:
+            out[t] = "T" if present != flip else "F"
+    return out
+
+
+def key_lookup_guarded(ctx: "Ctx", f: FuncInfo, step: Node) -> bool:
+    """A keyed look-up step (D[k], del D[k], D.pop(k)) cannot raise KeyError: every path to it runs over the key-is-present edge
+    of a test of that very key in that very container, and nothing suspends in between (no one else can remove the key)."""
+    lk = _lookup_of(step)
+    if lk is None:
+        return False
+    p_ = ctx.eff.paths(step.func).of(lk[0])
+    if not p_:
+        return False
+    cpath = ctx.eff.rebase(p_, step.func, step.env)
+    kf, _ke, kl = ctx.vals.trace(step.func, step.env, lk[1])
+    tests = key_presence_tests(ctx, f, cpath, (kf.qual, ast.dump(kl)))
+    if not tests:
+        return False
+    g = ctx.an.cfg(f)
+    if step in reach([g.entry], lambda a, b, lab: not (a in tests and lab[0] == tests[a])):
+        return False
+    after = set()
+    for t, lab_ in tests.items():
+        after |= reach([b for b, lab in t.succ if lab[0] == lab_])
+    mid = after & reach_back([step])
+    return not any(n.suspends or (n is not step and any(e.kind in ("remove", "clear", "assign") and e.path == cpath for e in ctx.eff.of_node(n))) for n in mid)
+
+
+def r_not_found_only_when_absent(ctx: "Ctx", rule: str, f: FuncInfo, table: str, exc_name: str) -> int:
+    """Every `raise <exc_name>` of f is reached only over a witness that the key is NOT in the table: the key-is-absent edge of a
+    membership / `get(k) is None` test, or the KeyError edge of a keyed look-up in that table.  (A truthiness test of the entry is
+    no witness: an existing but empty register is falsy.)  -> number of raise sites judged"""
+    g = ctx.an.cfg(f)
+    raises = ctx.distinct_sites(ctx.nodes(f, lambda n: n.op == "raise" and n.ast.exc is not None and any(c.endswith("." + exc_name) or c == exc_name for c in ctx.hier.resolve(n.func.module, n.ast.exc))))
+    lookups = [n for n in ctx.nodes(f, lambda n: _lookup_of(n) is not None) if (ctx.eff.rebase(ctx.eff.paths(n.func).of(_lookup_of(n)[0]) or "", n.func, n.env) == table)]
+    tests: Dict[Node, str] = {}
+    for lk in ctx.distinct_sites(lookups):
+        kf, _ke, kl = ctx.vals.trace(lk.func, lk.env, _lookup_of(lk)[1])
+        tests.update(key_presence_tests(ctx, f, table, (kf.qual, ast.dump(kl))))
+    # tests of keys that are never looked up with [] / pop (the `.get` form): every test of the table counts for its own key
+    for t in ctx.nodes(f, lambda n: n.op == "test"):
+        for x in ast.walk(t.ast):
+            key = None
+            if isinstance(x, ast.Compare) and len(x.ops) == 1 and isinstance(x.ops[0], (ast.In, ast.NotIn)):
+                key = x.left
+            elif isinstance(x, ast.Compare) and len(x.ops) == 1 and isinstance(x.ops[0], (ast.Is, ast.IsNot)):
+                for fr_, env_, v in ctx.vals.leaves_at(t, x.left.value if isinstance(x.left, ast.NamedExpr) else x.left):
+                    if isinstance(v, ast.Call) and isinstance(v.func, ast.Attribute) and v.func.attr == "get" and v.args:
+                        kf, _ke, kl = ctx.vals.trace(fr_, env_, v.args[0])
+                        tests.update(key_presence_tests(ctx, f, table, (kf.qual, ast.dump(kl))))
+            if key is not None:
+                kf, _ke, kl = ctx.vals.trace(t.func, t.env, key)
+                tests.update(key_presence_tests(ctx, f, table, (kf.qual, ast.dump(kl))))
+    look_ids = {id(n) for n in lookups}
+
+    def no_witness(a: Node, b: Node, lab) -> bool:
+        if a in tests and lab[0] in ("T", "F") and lab[0] != tests[a]:
+            return False
+        if lab[0] == "x" and lab[1] and lab[1][0] == KEYERROR and id(a) in look_ids:
+            return False
+        return True
+
+    unwitnessed = reach([g.entry], no_witness)
+    for r in raises:
+        copies = ctx.nodes(f, lambda n: n.ast is r.ast and n.op == "raise")
+        bad = [c for c in copies if c in unwitnessed]
+        ctx.rep.ob(rule, f"{exc_name} is raised only when the name is not in the table (an existing entry that is merely empty/falsy is found)", not bad, node=r,
+                   detail="" if not bad else "the raise is reachable without a membership test / `get(...) is None` test / KeyError of the look-up having shown the name absent")
+    return len(raises)
+
+
+def surplus_forwarded_only(ctx: "Ctx", t: FuncInfo, benv, names: Set[str], target_names: Sequence[str]) -> bool:
+    """The *args / **kwargs parameters `names` of helper t (spliced in with the binding benv) are only ever forwarded, starred, to a
+    call through a callable parameter that this call site binds to one of the package functions `target_names`."""
+    tsc = ctx.an.scope(t)
+    tpar: Dict[int, ast.AST] = {}
+    for node in tsc._own_nodes():
+        for ch in ast.iter_child_nodes(node):
+            tpar[id(ch)] = node
+    for node in tsc._own_nodes():
+        if isinstance(node, ast.Name) and node.id in names and isinstance(node.ctx, ast.Load):
+            par = tpar.get(id(node))
+            c2 = tpar.get(id(par)) if isinstance(par, (ast.Starred, ast.keyword)) else None
+            if not (isinstance(c2, ast.Call) and (isinstance(par, ast.Starred) or par.arg is None) and isinstance(c2.func, ast.Name) and c2.func.id in benv
+                    and not tsc.defs.get(c2.func.id)):
+                return False
+            fr_, _env, ref = ctx.vals.trace(benv[c2.func.id][0], benv[c2.func.id][2], benv[c2.func.id][1])
+            pc = ctx.an.scope(fr_).callee(ast.copy_location(ast.Call(func=ref, args=[], keywords=[]), ref))
+            if not (pc.kind == "pkg" and pc.targets and all(x.name in target_names for x in pc.targets)):
+                return False
+    return not any(n in tsc.defs for n in names)
